@@ -1,6 +1,8 @@
 #!/bin/bash
-# usage: goals.sh file.v LINE  -> prints goals after running file up to LINE (inclusive)
+# usage: goals.sh file.v LINE [TAIL] -> goals after running file (relative to /verif/coq, or absolute) up to LINE
+cd /verif/coq
 f=$1; n=$2
 head -n $n $f > /tmp/_g_$$.v
 echo 'Show. ' >> /tmp/_g_$$.v
-cd /verif/coq && timeout 120 coqtop -Q . TI -quiet < /tmp/_g_$$.v 2>&1 | tail -${3:-60}
+timeout 120 coqtop -Q . TI -quiet < /tmp/_g_$$.v 2>&1 | tail -${3:-60}
+rm -f /tmp/_g_$$.v
